@@ -285,6 +285,7 @@ def run(ctx):
     for dname in DEV_ORDER:
         if not any(r["classes"] == [dname] and r["pinned_deviates"] for r in records):
             raise ToolError(f"sample holds no scenario isolating deviation '{dname}'")
+    records.sort(key=lambda r: json.dumps(r, sort_keys=True))     # TLC workers print in any order
     log(f"C30: {len(records)} REPLAY records from TLC")
     opts = [wild_options(r, rng) for r in records]
     counts = {}
